@@ -243,7 +243,8 @@ func (w *World) groundResults(opts *RunOpts, d *SchemaDump) ([]*FuncResult, []bo
 			case ok:
 				o.Status = "proved"
 			default:
-				o.Status, o.Output = "refuted", "the predicate evaluates to false on the extracted constant"
+				js, _ := json.Marshal(ds.States)
+				o.Status, o.Output = "refuted", "the predicate "+pred+" evaluates to false on the constant extracted from the working tree: "+ds.Pkg+"."+ds.Name+" = "+string(js)
 			}
 			o.Decided = true
 			res.Obls = append(res.Obls, o)
@@ -271,6 +272,13 @@ func (w *World) groundResults(opts *RunOpts, d *SchemaDump) ([]*FuncResult, []bo
 		for _, gn := range gnames {
 			members := gs[gn]
 			if !isClique(ds, members) {
+				// a group that was an exclusive group on the baseline tree and no
+				// longer is one: the obligation is still generated (and refuted)
+				if opts.Expected != nil && opts.Expected[fname+"#ground.group_"+gn+".clique"] == "proved" && len(members) >= 2 {
+					env.names["g_"+gn] = cSeq(members)
+					ob("group_"+gn+".clique", "GroupClique", "members of the group Remove one another (hypothesis of lemma group_exclusive)", "schema", "g_"+gn)
+					continue
+				}
 				if len(members) >= 2 {
 					res.Notes = append(res.Notes, fmt.Sprintf("group %s: members do not all Remove one another - outside the statement's exclusive groups", gn))
 				}
